@@ -208,6 +208,14 @@ def w_random(acc, n, seed):
     harness.run_hyp(acc, "middleware", o_middleware, mw, max(50, n // 5), seed)
 
 
+def w_fuzz(acc, runs, seed):
+    """Coverage-guided engine: names.py is a character-level state machine in pure Python, so libFuzzer's coverage
+    feedback applies; the oracle (reference differential + invariants) runs inside the target."""
+    from .. import fuzzrun
+
+    fuzzrun.run_atheris(acc, "C12", "split", o_split, runs, seed, tokens.SIGMA_A, ["Donald E. Knuth and Leslie Lamport", "{Simon and Schuster} and A~B", "a and b \\\\ and c"], max_len=64)
+
+
 def run(chk):
     bad = refnames.validate_on_corpus()
     if bad:
@@ -222,6 +230,7 @@ def run(chk):
     shards = 8 if quick else 32
     for s in range(shards):
         tasks.append(("w_random", (n_rand // shards, harness.seed_for(chk.seed, PROP, s))))
+    tasks.insert(0, ("w_fuzz", (100000 if quick else 3000000, chk.seed)))
     harness.pmap(chk.acc, MODNAME, tasks)
     chk.acc.exhaustive["and-tokens"] = (
         f"every sequence of length <= {max_len} over the 16-token alphabet {tokens.SIGMA_A!r} "
